@@ -26,6 +26,8 @@ Routines and classes for creating priors and timeslices for use in tsdate
 
 import logging
 import os
+import tempfile
+import warnings
 from collections import defaultdict, namedtuple
 
 import numpy as np
@@ -144,10 +146,11 @@ class ConditionalCoalescentTimes:
         if precalc_approximation_n:
             # Create lookup table based on a large n that can be used for n > ~50
             filename = self.get_precalc_cache(precalc_approximation_n)
-            if os.path.isfile(filename):
-                # Have already calculated and stored this
-                self.approx_priors = np.genfromtxt(filename)
-            else:
+            # Use the stored table if it is complete, otherwise (re)calculate it
+            self.approx_priors = self.read_precalc_cache(
+                filename, precalc_approximation_n
+            )
+            if self.approx_priors is None:
                 # Calc and store
                 self.approx_priors = self.precalculate_priors_for_approximation(
                     precalc_approximation_n,
@@ -264,8 +267,49 @@ class ConditionalCoalescentTimes:
         all_tips = np.arange(2, n + 1)
         prior_lookup_table[1:, 0] = all_tips / n
         prior_lookup_table[1:, 1] = conditional_coalescent_variance(n + 1)[all_tips]
-        np.savetxt(self.get_precalc_cache(n), prior_lookup_table)
+        # Write to a temporary file in the same directory and rename it, so that a
+        # crash or a concurrent writer can never leave a partial table under the
+        # final name
+        filename = self.get_precalc_cache(n)
+        fd, tmpname = tempfile.mkstemp(
+            dir=os.path.dirname(filename),
+            prefix=os.path.basename(filename) + ".",
+            suffix=".tmp",
+        )
+        try:
+            with os.fdopen(fd, "w") as f:
+                np.savetxt(f, prior_lookup_table)
+            os.replace(tmpname, filename)
+        except BaseException:
+            if os.path.exists(tmpname):
+                os.remove(tmpname)
+            raise
         return prior_lookup_table
+
+    @staticmethod
+    def read_precalc_cache(filename, n):
+        """
+        Return the table stored in ``filename`` if it is a complete lookup table
+        for ``n`` tips, otherwise (missing, truncated or foreign file) ``None``
+        """
+        if not os.path.isfile(filename):
+            return None
+        try:
+            with warnings.catch_warnings():
+                warnings.simplefilter("ignore")
+                table = np.genfromtxt(filename)
+        except (OSError, ValueError, IndexError):
+            return None
+        expected = np.zeros(n)
+        expected[1:] = np.arange(2, n + 1) / n
+        if (
+            table.shape != (n, 2)
+            or not np.all(np.isfinite(table))
+            or not np.array_equal(table[:, 0], expected)
+        ):
+            logging.warning(f"Ignoring incomplete cache file `{filename}`")
+            return None
+        return table
 
     def clear_precalculated_priors(self):
         if os.path.isfile(self.get_precalc_cache(self.n_approx)):
